@@ -20,3 +20,14 @@ package responder
 //@   requires r != nil && resp != nil
 //@   ensures @C11: true
 //@   checks safety
+
+// C15 "every decoder recovers exactly what the matching encoder was given": a query is decoded from the bytes that were
+// RECEIVED FOR IT. Each datagram is parsed by its own goroutine, so the buffer it is read into must belong to that
+// datagram alone: it is allocated in the iteration that receives the datagram, not shared with the next receive.
+//@ func (r *Responder) RecvAndRespond(getResponse func([]byte) ([]byte, error)) error
+//@   requires r != nil && r.transport != nil
+//@   atcall PacketConn).ReadFrom before: assert @C15: iterfresh(arg1)
+//@   ensures @C15: true
+//@   checks structure
+//@ loop 1:
+//@   invariant r != nil && r.transport != nil
